@@ -29,7 +29,7 @@ ASSUMPTIONS = ['the lookup and graph clauses are pure functions of their input a
                'flows per class) are the simulation targets',
                'Splitter copies are shallow: only scalar header fields are required to be independent',
                'flow ids are non-negative']
-PROBES = ['end_devices_registered_after_construction', 'hub_listener_without_element_id', 'first_output_stamps_synchronously', 'outputs_added_after_construction', 'table_replaced', 'split_packet_with_headers', 'sub_demux', 'sub_hub', 'sub_split', 'sub_fattree', 'empty_table', 'unknown_flow_to_default', 'unknown_flow_nowhere',
+PROBES = ['splitter_outputs_are_library_sinks', 'end_devices_registered_after_construction', 'hub_listener_without_element_id', 'first_output_stamps_synchronously', 'outputs_added_after_construction', 'table_replaced', 'split_packet_with_headers', 'sub_demux', 'sub_hub', 'sub_split', 'sub_fattree', 'empty_table', 'unknown_flow_to_default', 'unknown_flow_nowhere',
           'end_device_hit', 'hub_through_wires', 'hub_add_endpoint', 'two_hubs', 'hub_nested_reply', 'fattree_decoy', 'fattree_k2', 'fattree_k4', 'fattree_k6', 'fattree_tcp',
           'fattree_many_to_one', 'server_WFQ', 'server_DRR', 'server_SP', 'server_VirtualClock', 'ack_class_delivered']
 
@@ -72,7 +72,7 @@ def gen(rng, tier):
     if sub == 'split':
         return {'sub': 'split', 'n': rng.choice([2, 2, 3, 4]), 'use_n': rng.random() < 0.5,
                 'connected': [rng.random() < 0.85 for _ in range(4)], 'npk': rng.randint(1, 5),
-                'stamping_first': rng.random() < 0.3,
+                'stamping_first': rng.random() < 0.3, 'lib_sinks': rng.random() < 0.3,
                 # header fields beyond the constructor's: acknowledgements, coloured / stamped packets
                 'hdr': [[rng.choice([0, 0, 512, 4096]), rng.choice(['', 'green', 'red']), rng.choice([0, 0.25, 7]),
                          rng.choice([None, [3, 2]]), rng.choice([None, ['p1', 0.5]])] for _ in range(5)]}
@@ -333,6 +333,21 @@ def run_split(w, case):
     viol, stats = [], {'sub_split': 1}
     n = case['n']
     conn = case.get('connected', [True] * 4)
+    Rec = globals()['Rec']
+    if case.get('lib_sinks'):
+        # the outputs are library sinks (a subclass that also remembers what it was handed): a sink only reads packets -
+        # it is still entitled to a copy of its own
+        from onl.packet import PacketSink as _PS
+
+        class Rec(_PS):                                      # noqa: F811
+            def __init__(self, w, name):
+                _PS.__init__(self, w.env)
+                self.name, self.got = name, []
+
+            def put(self, p):
+                self.got.append(p)
+                return _PS.put(self, p)
+        stats['splitter_outputs_are_library_sinks'] = 1
     if case.get('use_n'):
         sp = NSplitter(n)
         recs = [Rec(w, 'o%d' % i) if conn[i % len(conn)] else None for i in range(n)]
